@@ -13,6 +13,7 @@ import (
 	"runtime"
 	"strings"
 	"testing"
+	"testing/iotest"
 
 	"github.com/zeromicro/go-zero/core/logx"
 	"github.com/zeromicro/go-zero/core/mapping"
@@ -204,12 +205,31 @@ func c17MappingFormats(t *rapid.T, st *verifkit.Stats, tp *verifc17.Type, doc ma
 		st.Class(fmt.Sprintf("formats:unrepresentable(json=%v,yaml=%v,toml=%v)", okj, oky, okt))
 		return
 	}
-	reader := rapid.Bool().Draw(t, "reader")
+	// the Reader entry points get readers that behave in every way io.Reader allows: all at once, one
+	// byte per Read, half of what is asked for, the last data together with io.EOF (what iotest's
+	// DataErrReader does, and an HTTP body of known length), and short chunks of a drawn size
+	readerKind := rapid.SampledFrom([]string{"bytes-api", "bytes.Reader", "one-byte", "half", "data-with-eof", "chunks-with-eof", "bytes-api", "bytes.Reader"}).Draw(t, "reader")
+	reader := readerKind != "bytes-api"
+	chunk := rapid.IntRange(1, 40).Draw(t, "chunk")
+	mkReader := func(b []byte) io.Reader {
+		switch readerKind {
+		case "one-byte":
+			return iotest.OneByteReader(bytes.NewReader(b))
+		case "half":
+			return iotest.HalfReader(bytes.NewReader(b))
+		case "data-with-eof":
+			return iotest.DataErrReader(bytes.NewReader(b))
+		case "chunks-with-eof":
+			return iotest.DataErrReader(&c17ChunkReader{b: b, n: chunk})
+		}
+		return bytes.NewReader(b)
+	}
+	st.Class("formats:reader=" + readerKind)
 	dec := func(fb func([]byte, any, ...mapping.UnmarshalOption) error,
 		fr func(io.Reader, any, ...mapping.UnmarshalOption) error, data []byte) c17dec {
 		return c17Decode(tp.RT(), func(b []byte, v any) error {
 			if reader {
-				return fr(bytes.NewReader(b), v, opts...)
+				return fr(mkReader(b), v, opts...)
 			}
 			return fb(b, v, opts...)
 		}, data)
@@ -231,7 +251,7 @@ func c17MappingFormats(t *rapid.T, st *verifkit.Stats, tp *verifc17.Type, doc ma
 		}
 		if msg != "" {
 			t.Fatalf("mapping JSON vs %s (reader=%v canonicalKeyFunc=%v): %s\ntype %s\nmutations %v\nJSON %s\n%s:\n%s",
-				o.name, reader, canon, msg, tp, muts, jb, o.name, o.data)
+				o.name, readerKind, canon, msg, tp, muts, jb, o.name, o.data)
 		}
 	}
 	if mj.err == nil {
@@ -242,6 +262,28 @@ func c17MappingFormats(t *rapid.T, st *verifkit.Stats, tp *verifc17.Type, doc ma
 	if canon && len(muts) == 0 && mj.err != nil {
 		t.Fatalf("valid lower-cased document rejected with WithCanonicalKeyFunc(strings.ToLower): %v\ntype %s\nJSON %s", mj.err, tp, jb)
 	}
+}
+
+// c17ChunkReader hands out at most n bytes per Read.
+type c17ChunkReader struct {
+	b []byte
+	n int
+}
+
+func (r *c17ChunkReader) Read(p []byte) (int, error) {
+	if len(r.b) == 0 {
+		return 0, io.EOF
+	}
+	k := r.n
+	if k > len(p) {
+		k = len(p)
+	}
+	if k > len(r.b) {
+		k = len(r.b)
+	}
+	copy(p, r.b[:k])
+	r.b = r.b[k:]
+	return k, nil
 }
 
 // ---------------------------------------------------------------- native fuzz target
